@@ -167,7 +167,7 @@ def check_bulk(case, ev):
     return None
 
 
-REPLAY = {"bulk": check_bulk, "masks": check_mask_pred, "masks_random": check_mask_pred, "text": check_text, "collide": check_collide}
+REPLAY = {"bulk": check_bulk, "masks": check_mask_pred, "masks_random": check_mask_pred, "text": check_text, "text_long": check_text, "collide": check_collide}
 
 _SEPS = st.sampled_from([" ", "  ", " , ", "\t", " (", ") ", " - ", ";", " netmask ", " mask ", " wildcard ", "|", "=", " eq "])
 
@@ -236,6 +236,27 @@ def t_bulk(shard, nshards, seed, ev, known, n=1, size=24000):
     return core.enum_drive(cases, check_bulk, ev, known, "bulk")
 
 
+def t_text_long(shard, nshards, seed, ev, known, n=5500):
+    """One physical line (> 64 KiB) of masks, preserved and ordinary addresses through anonymize_io."""
+    cases = []
+    for k in range(nshards):
+        if k % nshards != shard:
+            continue
+        cfg = {"salt": "ml%d" % k, "B4": 8, "B6": 8, "prefixes": None, "networks": ["10.0.0.0/8", "203.0.113.0/24"], "mode": "default"}
+        toks = []
+        for i in range(n):
+            h = core.derive("ml", seed, k, i)
+            if h % 3 == 0:
+                x = MASKS[(h >> 4) % 64]
+            elif h % 3 == 1:
+                x = (10 << 24) | ((h >> 4) & 0xFFFFFF)
+            else:
+                x = (h >> 4) & G.M32
+            toks.append([x, G.v4_canon(x) if h % 5 else "%03d.%03d.%03d.%03d" % (x >> 24, (x >> 16) & 255, (x >> 8) & 255, x & 255)])
+        cases.append({"cfg": cfg, "via": "io", "toks": toks, "seps": [""] + [" "] * (n - 1) + [""], "prelude": None, "undo": k % 2 == 1})
+    return core.enum_drive(cases, check_text, ev, known, "text_long")
+
+
 def t_masks(shard, nshards, seed, ev, known):
     ints = sorted(set(MASKS) | {m ^ (1 << b) for m in MASKS for b in range(32)})
     fs = core.enum_drive(({"n": n} for n in ints), check_mask_pred, ev, known, "masks")
@@ -262,6 +283,7 @@ def plan(tier):
         Task("masks", t_masks),
         Task("masks_random", t_masks_random, shards=1 if q else 8, n=3000 if q else 100000),
         Task("text", t_text, shards=3 if q else 16, n=1000 if q else 30000),
+        Task("text_long", t_text_long, shards=3 if q else 6, n=12000 if q else 30000),
         Task("collide", t_collide, shards=3 if q else 16, n=1700 if q else 40000),
         Task("bulk", t_bulk, shards=3 if q else 8, n=1 if q else 4, size=24000 if q else 60000),
     ]
